@@ -662,9 +662,15 @@ def shrink_candidates(spec, typ):
                 yield s2, t
     for j, pp in enumerate(spec.get("pps", [])):
         base = {"a": "with", "aw": "in", "an": "after", "awn": "before", "w": "via", "-": "out"}[prep_class(pp["prep"])]
-        for b in ({"prep": "in", "arg": np_("house", "s")}, {"prep": base, "arg": np_("house", "s")},
+        order = ["in", "out", "after", base]
+        rank = order.index(pp["prep"]) if pp["prep"] in order else len(order)
+        for b in ({"prep": "in", "arg": np_("house", "s")}, {"prep": "out", "arg": np_("house", "s")},
+                  {"prep": "after", "arg": np_("house", "s")}, {"prep": base, "arg": np_("house", "s")},
                   {"prep": pp["prep"], "arg": np_("house", "s")}, {"prep": base, "arg": pp["arg"]}):
-            if pp != b:
+            # strictly simpler only: an earlier preposition of the list, or the same one with the canonical noun
+            if pp != b and (order.index(b["prep"]) if b["prep"] in order else len(order)) <= rank \
+                    and not (b["prep"] == pp["prep"] and b["arg"] == pp["arg"]) \
+                    and (b["prep"] != pp["prep"] or pp["arg"] != np_("house", "s")):
                 s2 = dict(spec)
                 s2["pps"] = spec["pps"][:j] + [b] + spec["pps"][j + 1:]
                 yield s2, t
@@ -681,6 +687,7 @@ class Shrinker:
         if r is not None:
             return r
         path = []
+        visited = set()
         cur = (spec, typ_clean(typ))
         while True:
             k = (abstract_key(*cur), fail)
@@ -688,8 +695,11 @@ class Shrinker:
                 res = self.memo[k]
                 break
             path.append(k)
+            visited.add(k[0])
             nxt = None
             for s2, t2 in shrink_candidates(*cur):
+                if abstract_key(s2, t2) in visited:
+                    continue          # never walk back (two lexical items of one class may both fail)
                 if fail in self.ev.fails(s2, t2):
                     nxt = (s2, t2)
                     break
@@ -869,7 +879,7 @@ def sweep(ctx, want=("C04", "C08"), label="clause"):
                                          "x %d subjects (object of the opposite number, one prepositional complement), both notations"
                                          % (len(PANEL), len(SUBJECTS)))
     else:
-        n = 15000 if not getattr(ctx, "deep", False) else 60000
+        n = 10000 if not getattr(ctx, "deep", False) else 40000
         per = 500
         for k in range(n // per):
             tasks.append(("sample", (ctx.rng.getrandbits(48), per, True), ctx.driver, want))
